@@ -7,6 +7,8 @@ Direct oracle (O), on the real classes only:
   * `decode(encode(v))` gives an equal value (F4: equal after rounding to binary32) and returns exactly the position after the item;
   * the same when the decoding object already holds another value (as `List.decode` / a reused function object do), several times in a row;
   * every value `set()` accepts — whatever the model says about it — has an E5 encoding, is encoded to it and decodes back;
+  * `set()` replaces: a second `set()` (also field-wise through item / attribute assignment on a List, also with an empty array) leaves
+    exactly the second value; a Dynamic / ANYVALUE / data item given two plain values of different kinds ends like a fresh object;
   * `encode_item_header` is format byte + minimal big-endian length bytes for every length 0..0xFFFFFF and refuses the rest.
 """
 from __future__ import annotations
@@ -150,6 +152,110 @@ def _set_obj(t, count, p):
     return obj
 
 
+def reshape(rng, s, v):
+    """another value of structure s: arrays get a different number of elements (also none), leaves other elements"""
+    k = s[0]
+    t, xs = v
+    if k == "arr" and t == "L":
+        n = rng.choice([0, 0, 1, 2, len(xs) + 1])
+        proto = xs[0] if xs else None
+        if proto is None:
+            return ("L", [])
+        return ("L", [reshape(rng, s[1], proto) for _ in range(n)])
+    if k == "rec" and t == "L":
+        return ("L", [reshape(rng, f, x) for f, x in zip(s[1], xs)])
+    if t == "L":
+        return v
+    n = rng.choice([0, len(xs), len(xs)]) if xs else 0
+    return (t, K.gen_elems(rng, t, n, "finite"))
+
+
+def oracle_set_twice(res, s, v1, v2):
+    """set() replaces: v1 then v2 on ONE object (and field by field through item / attribute assignment on a List) leaves exactly v2,
+    encoded as the E5 bytes of v2"""
+    case = {"kind": "settwice", "struct": js(s), "v1": js(v1), "v2": js(v2)}
+    want = K.own_encode(v2)
+
+    def check(obj, how):
+        try:
+            held = K.val_of_var(obj)
+            enc = obj.encode()
+        except Exception as exc:  # noqa: BLE001
+            res.violate("set-twice-stale", f"after {how} the object cannot be read / encoded: {type(exc).__name__}: {exc}", dict(case, how=how))
+            return
+        if held != v2 or enc != want:
+            res.violate("set-twice-stale", f"after {how} the object does not hold / encode the second value", dict(case, how=how),
+                        K.show_val(v2)[:200], K.show_any(held)[:200])
+    try:
+        obj = K.fresh_var(s)
+        obj.set(K.plain_for(s, v1))
+    except Exception:  # noqa: BLE001
+        return          # v1 not settable this way: nothing to compare
+    try:
+        obj.set(K.plain_for(s, v2))
+    except Exception as exc:  # noqa: BLE001
+        res.violate("set-twice-stale", f"the second set() on the same object raised {type(exc).__name__}: {exc}", case)
+        return
+    check(obj, "set(v1); set(v2)")
+    if s[0] == "rec" and s[1]:
+        for mode in ("item", "attr"):
+            try:
+                lst = K.fresh_var(s)
+                lst.set(K.plain_for(s, v1))
+                keys = list(lst.data.keys())
+                for i, (f, x) in enumerate(zip(s[1], v2[1])):
+                    if f[0] in ("dyn", "any"):
+                        lst.data[keys[i]].set(K.plain_for(f, x))      # a typed object cannot be item-assigned into a Dynamic field
+                    elif mode == "item":
+                        lst[i] = K.plain_for(f, x)
+                    else:
+                        setattr(lst, keys[i], K.plain_for(f, x))
+            except Exception as exc:  # noqa: BLE001
+                res.violate("set-twice-stale", f"{mode} assignment of the second value raised {type(exc).__name__}: {exc}", dict(case, how=mode))
+                continue
+            check(lst, f"set(v1); field-wise {mode} assignment of v2")
+
+
+PLAIN_SEQ = [("str", [97, 98, 99]), ("int", 5), ("bool", 1), ("int", 1), ("float", 0x3FF8000000000000), ("int", 300), ("bytes", [1, 2]), ("str", [55]),
+             ("int", -7), ("bool", 0), ("int", 0), ("str", [73, 68, 76, 69]), ("int", 17), ("int", 70000), ("float", 0x4000000000000000)]
+
+
+def oracle_dynamic_resets(res, make, label, p1, p2):
+    """a Dynamic / ANYVALUE / data item object given p1 then p2 ends exactly like a FRESH one given p2 (type and bytes)"""
+    case = {"kind": "dynseq", "obj": label, "p1": js(p1), "p2": js(p2)}
+
+    def outcome(ps):
+        try:
+            d = make()
+            for p in ps:
+                d.set(K.py_real(p))
+            return "ok " + K.show_obj(d) + " " + d.encode().hex()
+        except Exception as exc:  # noqa: BLE001
+            return "err " + hlib.errkind(exc)
+    try:
+        d0 = make()
+        d0.set(K.py_real(p1))
+    except Exception:  # noqa: BLE001
+        return
+    fresh, used = outcome([p2]), outcome([p1, p2])
+    if fresh != used:
+        res.violate("set-twice-differs-from-fresh", f"{label}: set({K.show_py(p1)}) then set({K.show_py(p2)}) differs from a fresh object given the second value",
+                    case, fresh[:200], used[:200])
+
+
+def dynamic_makers():
+    import secsgem.secs.data_items as D
+    from secsgem.secs.variables.dynamic import ANYVALUE
+    out = [("ANYVALUE", ANYVALUE), ("Dynamic([])", lambda: V.Dynamic([])), ("Dynamic([String,U1,U2,Boolean])", lambda: V.Dynamic([V.String, V.U1, V.U2, V.Boolean])),
+           ("Dynamic([Boolean,U1,I2,F4,String,Binary])", lambda: V.Dynamic([V.Boolean, V.U1, V.I2, V.F4, V.String, V.Binary])),
+           ("Dynamic([U1,String],count=3)", lambda: V.Dynamic([V.U1, V.String], count=3))]
+    for name in ("SV", "SVID", "ECV", "CPVAL", "MID", "CEID"):
+        c = getattr(D, name, None)
+        if c is not None:
+            out.append((name, c))
+    return out
+
+
 def oracle_accepted(res, t, count, p):
     """the property on ANY value the implementation accepts: T(count).set(p) succeeded -> the held value has an E5 encoding,
     encode() is that encoding, and it decodes back to the held value at the right position"""
@@ -219,6 +325,12 @@ def replay_case(res, case):
         oracle_reuse(res, unjs(case["struct"]), unjs(case["start"]) if case["start"] is not None else None, [unjs(x) for x in case["seq"]])
     elif k == "accepted":
         oracle_accepted(res, case["type"], case["count"], unjs_py(case["py"]))
+    elif k == "settwice":
+        oracle_set_twice(res, unjs(case["struct"]), unjs(case["v1"]), unjs(case["v2"]))
+    elif k == "dynseq":
+        mk = dict(dynamic_makers()).get(case["obj"])
+        if mk is not None:
+            oracle_dynamic_resets(res, mk, case["obj"], unjs_py(case["p1"]), unjs_py(case["p2"]))
     elif k == "roundtrip":
         oracle_roundtrip(res, unjs(case["struct"]), unjs(case["val"]), bytes.fromhex(case["prefix"]))
     elif k == "header":
@@ -494,6 +606,11 @@ def main():
             if i % 3 == 0:
                 oracle_reuse(res, s, None, [v, empty_of(v), v])          # decode several times in a row into one object
             res.evaluations += 2
+            if not K.has_list_under_dyn(s, v):
+                w = reshape(rng, s, v)
+                oracle_set_twice(res, s, v, w)                           # set() twice on one object, also field by field
+                oracle_set_twice(res, s, w, v)
+                res.evaluations += 2
         t = v[0]
         res.count(("pair", K.show_struct(s), K.show_val(v)), sample={"op": "encode/decode", "struct": K.show_struct(s), "val": K.show_val(v)[:120]} if i % 97 == 0 else None)
         res.bump("top_type", t)
@@ -655,6 +772,13 @@ def main():
         oracle_set(res, "F4", [b])
     for b in [K.DBL_MAX64, K.SIGN | K.DBL_MAX64, 1, 0x0010000000000000]:
         oracle_set(res, "F8", [b])
+
+    # Dynamic objects given plain values of different kinds one after the other: like a fresh object each time
+    for label, mk in dynamic_makers():
+        for i, p1 in enumerate(PLAIN_SEQ):
+            for p2 in (PLAIN_SEQ if big else [PLAIN_SEQ[(i + 1) % len(PLAIN_SEQ)], PLAIN_SEQ[(i + 4) % len(PLAIN_SEQ)], rng.choice(PLAIN_SEQ)]):
+                oracle_dynamic_resets(res, mk, label, p1, p2)
+                res.count(("dynseq", label, K.show_py(p1), K.show_py(p2)))
 
     # ------------------------------------------------------------------ F. IEEE helpers of the model against struct / float() / int()
     cases, lines, answers = [], [], []
